@@ -104,7 +104,7 @@ pub fn case_mode(ctx: &mut Ctx, xml: &str, fragment: bool, ex: &Expect) {
         Observed::Ok(seen) => {
             if let (Some(f), Some(r)) = (ex.fault, ex.rendered) {
                 if expects_here(r) {
-                    ctx.fail("C03", &format!("fault-accepted-{}", f), "an ill-formed text was accepted", entry, xml);
+                    ctx.fail("C03", &fault_signature(f), "an ill-formed text was accepted", entry, xml);
                 }
             }
             let mut problems = BTreeSet::new();
@@ -191,6 +191,14 @@ pub fn case_mode(ctx: &mut Ctx, xml: &str, fragment: bool, ex: &Expect) {
                             }
                         }
                     }
+                    if r.feats.contains("attr-local-xmlns") {
+                        // everything below such an attribute inherits the bogus default namespace
+                        let collateral = ["element-namespace-differs", "declarations-differ", "attributes-differ", "children-differ"];
+                        if c02.iter().any(|c| collateral.contains(&c.as_str())) {
+                            c02.retain(|c| !collateral.contains(&c.as_str()));
+                            c02.insert("attribute-named-xmlns-taken-as-default-declaration".into());
+                        }
+                    }
                     if c02.is_empty() {
                         ctx.sink.stat("c02.rendered-equal");
                     }
@@ -237,6 +245,25 @@ pub fn case_mode(ctx: &mut Ctx, xml: &str, fragment: bool, ex: &Expect) {
         if matches!(o2, Observed::Ok(_)) && !matches!(obs, Observed::Panic) {
             ctx.fail("C02", "wrapped-text-accepted-but-fragment-rejected", "parse(<w>t</w>) ok, parse_fragment(t) not", "parse_fragment", xml);
         }
+    }
+}
+
+/// One signature per root cause: an accepted fault is filed under the defect that lets it pass.
+fn fault_signature(fault: &str) -> String {
+    if fault == "duplicate-attribute-by-expanded-name" {
+        "duplicate-attribute-by-expanded-name-accepted".into()
+    } else if fault == "prefix-declared-twice" {
+        "prefix-declared-twice-accepted".into()
+    } else if fault.starts_with("non-char-reference") {
+        "reference-to-non-char-accepted".into()
+    } else if fault.starts_with("signed-reference") {
+        "signed-character-reference-accepted".into()
+    } else if fault == "duplicate-xml-id-after-normalisation" {
+        "duplicate-xml-id-after-normalisation-accepted".into()
+    } else if fault == "ill-formed-reference-in-namespace-declaration" {
+        "ill-formed-namespace-declaration-value-accepted".into()
+    } else {
+        format!("fault-accepted-{}", fault)
     }
 }
 
